@@ -314,6 +314,96 @@ def emit_layout(rows):
     return "\n".join(o) + "\n"
 
 
+TOK_RE = re.compile(r"\s*(?:(0[xX][0-9a-fA-F]+|\d+)[uUlL]*|([A-Za-z_]\w*)|(<<|>>|<=|>=|==|!=|&&|\|\||[-+*/%&|^~!<>?:])|(\()|(\))|(,))")
+
+
+def tokenize(body):
+    toks, i = [], 0
+    body = body.strip()
+    while i < len(body):
+        m = TOK_RE.match(body, i)
+        if not m or m.end() == i:
+            return None
+        num, ident, op, lp, rp, comma = m.groups()
+        if num is not None:
+            toks.append("TNum %s" % zlit(int(num, 0)))
+        elif ident is not None:
+            toks.append("TId %s" % coq_str(ident))
+        elif op is not None:
+            toks.append("TOp %s" % coq_str(op))
+        elif lp:
+            toks.append("TLParen")
+        elif rp:
+            toks.append("TRParen")
+        else:
+            toks.append("TComma")
+        i = m.end()
+    return toks
+
+
+def emit_macros():
+    """function-like macros as compiled (active #if branch), as token lists"""
+    r = run(["gcc"] + CFLAGS + ["-E", "-dM", os.path.join(SRC, "libwifi.h")])
+    wanted = ["libwifi_check_capabilities", "BYTESWAP16", "BYTESWAP32", "BYTESWAP64"]
+    found = {}
+    for line in r.stdout.splitlines():
+        m = re.match(r"#define (\w+)\(([^)]*)\)\s*(.*)$", line)
+        if m and m.group(1) in wanted:
+            params = [p.strip() for p in m.group(2).split(",") if p.strip()]
+            found[m.group(1)] = (params, tokenize(m.group(3)))
+    o = ["(* GENERATED by tools/translate.py from %s - do not edit *)" % REPO,
+         "From Coq Require Import List ZArith String.", "From LW Require Import Base.Tok.", "Import ListNotations.",
+         "Local Open Scope Z_scope.", "Local Open Scope string_scope.", ""]
+    for w in wanted:
+        if w in found and found[w][1] is not None:
+            params, toks = found[w]
+            o.append("Definition macro_%s : macro := {| m_name := %s; m_params := [%s]; m_body := [%s] |}." %
+                     (w, coq_str(w), "; ".join(coq_str(p) for p in params), "; ".join(toks)))
+        else:
+            o.append("(* %s: not a function-like macro with a tokenisable body any more *)" % w)
+            o.append("Definition macro_%s : macro := {| m_name := %s; m_params := []; m_body := [TOp \"?untranslated\"] |}." % (w, coq_str(w)))
+    o.append("Definition all_macros : list macro := [%s]." % "; ".join("macro_" + w for w in wanted))
+    return "\n".join(o) + "\n"
+
+
+RTAP_PROBE = r"""
+#include <stdio.h>
+#include "libwifi.h"
+int main(void) {
+    printf("n_bits %d\n", radiotap_ns.n_bits);
+    for (int i = 0; i < radiotap_ns.n_bits; i++)
+        printf("as %d %d %d\n", i, radiotap_ns.align_size[i].align, radiotap_ns.align_size[i].size);
+    return 0;
+}
+"""
+
+
+def emit_rtap(work):
+    """the radiotap alignment/size table as compiled into radiotap_ns"""
+    path = os.path.join(work, "rtprobe.c")
+    with open(path, "w") as f:
+        f.write(RTAP_PROBE)
+    exe = os.path.join(work, "rtprobe")
+    r = run(["gcc"] + CFLAGS + ["-o", exe, path, os.path.join(SRC, "libwifi/core/radiotap/radiotap.c")])
+    rows, nb = [], 0
+    ok = r.returncode == 0
+    if ok:
+        out = run([exe]).stdout
+        for line in out.splitlines():
+            p = line.split()
+            if p[0] == "n_bits":
+                nb = int(p[1])
+            else:
+                rows.append((int(p[2]), int(p[3])))
+    o = ["(* GENERATED by tools/translate.py from %s - do not edit *)" % REPO,
+         "From Coq Require Import List ZArith.", "Import ListNotations.", "Local Open Scope Z_scope.", "",
+         "Definition rtap_table_ok : bool := %s." % ("true" if ok else "false"),
+         "Definition rtap_n_bits : Z := %d." % nb,
+         "(* (align, size) of radiotap_ns.align_size[i], i = 0 .. n_bits-1 *)",
+         "Definition rtap_align_size : list (Z * Z) := [%s]." % "; ".join("(%d, %d)" % r for r in rows)]
+    return "\n".join(o) + "\n"
+
+
 def main():
     os.makedirs(GEN, exist_ok=True)
     os.makedirs(BUILD, exist_ok=True)
@@ -336,6 +426,10 @@ def main():
         changed.append("Consts.v")
     if write_if_changed(os.path.join(GEN, "Layout.v"), emit_layout(rows)):
         changed.append("Layout.v")
+    if write_if_changed(os.path.join(GEN, "Rtap.v"), emit_rtap(work)):
+        changed.append("Rtap.v")
+    if write_if_changed(os.path.join(GEN, "Macros.v"), emit_macros()):
+        changed.append("Macros.v")
     sys.path.insert(0, os.path.dirname(os.path.abspath(__file__)))
     import astq
     env = {n: vals[0] for k, n, vals in rows if k.startswith("enum:") or k == "def"}
